@@ -14,6 +14,7 @@ A check (tools/cXX.py) does, in this order:
                  exit 0 / 1 (2 = the machinery itself failed).
 """
 import fcntl
+import glob
 import hashlib
 import json
 import os
@@ -459,6 +460,19 @@ class Check:
         if not terms:
             return []
         jobs = jobs or min(NPROC, max(1, len(terms) // 300 + 1))
+        # the imported model files must be up to date with the sources they were generated from (a regenerated
+        # gen/*.v makes every dependent .vo stale: "inconsistent assumptions"); a model that no longer builds is a
+        # broken correspondence, reported as such
+        targets = []
+        for imp in imports:
+            hits = glob.glob(os.path.join(COQ, "theories", "*", imp.split(".")[-1] + ".v"))
+            targets += [os.path.relpath(h, COQ) + "o" for h in hits]
+        if targets:
+            ok, log = coq_make(sorted(set(targets)))
+            if not ok:
+                self.proof_broken("the model files of the correspondence no longer build (%s):\n%s"
+                                  % (" ".join(imports), log[-3000:]))
+                self.finish()
         d = os.path.join(CACHE, "cases", self.pid)
         os.makedirs(d, exist_ok=True)
         shards = [terms[i::jobs] for i in range(jobs)]
